@@ -26,6 +26,8 @@ pub struct Truth {
     pub len_bad: bool,
     /// control response carrying completion code c != 0
     pub cc: Option<u8>,
+    /// control response carrying a completion code 6-255, for which no `CompletionCode` exists
+    pub cc_undefined: bool,
 }
 
 /// Byte-determined facts about an input (also used by classify.rs).
@@ -87,13 +89,13 @@ pub fn decide(x: &[u8]) -> RefOut {
         return RefOut::OutOfClaim("short<10");
     }
     if !f.hdr_ok {
-        return RefOut::Reject(Truth { hdr_bad: true, ty: None, pec_bad: !f.pec_ok, len_bad: false, cc: None });
+        return RefOut::Reject(Truth { hdr_bad: true, ty: None, pec_bad: !f.pec_ok, len_bad: false, cc: None, cc_undefined: false });
     }
     if f.ty != TY_CONTROL {
         if f.pec_ok {
             return RefOut::Accept { ty: f.ty, a: 9, b: n - 1 };
         }
-        return RefOut::Reject(Truth { hdr_bad: false, ty: Some(f.ty), pec_bad: true, len_bad: false, cc: None });
+        return RefOut::Reject(Truth { hdr_bad: false, ty: Some(f.ty), pec_bad: true, len_bad: false, cc: None, cc_undefined: false });
     }
     // control
     if f.rq {
@@ -105,14 +107,16 @@ pub fn decide(x: &[u8]) -> RefOut {
         if f.pec_ok && !len_bad {
             return RefOut::Accept { ty: TY_CONTROL, a: 11, b: n - 1 };
         }
-        RefOut::Reject(Truth { hdr_bad: false, ty: Some(TY_CONTROL), pec_bad: !f.pec_ok, len_bad, cc: None })
+        RefOut::Reject(Truth { hdr_bad: false, ty: Some(TY_CONTROL), pec_bad: !f.pec_ok, len_bad, cc: None, cc_undefined: false })
     } else {
         if n < 13 {
             return RefOut::OutOfClaim("ctrl-resp-short<13");
         }
         if f.cc >= 6 {
-            // C10 class D4: CompletionCode::from is unreachable!() above 5
-            return RefOut::OutOfClaim("ctrl-resp-cc>=6");
+            // a completion code without a CompletionCode variant (the decoder used to panic here;
+            // repaired by c0966df): not Success, so it must be rejected; no error value can carry
+            // the code, so the condition-free ControlMessage(Unknown) is the truthful report
+            return RefOut::Reject(Truth { hdr_bad: false, ty: Some(TY_CONTROL), pec_bad: !f.pec_ok, len_bad: false, cc: None, cc_undefined: true });
         }
         if f.cc != 0 {
             return RefOut::Reject(Truth {
@@ -121,6 +125,7 @@ pub fn decide(x: &[u8]) -> RefOut {
                 pec_bad: !f.pec_ok,
                 len_bad: false, // length of an unsuccessful response is not specified
                 cc: Some(f.cc),
+                cc_undefined: false,
             });
         }
         if resp_len_outside_claim(f.cmd) {
@@ -131,7 +136,7 @@ pub fn decide(x: &[u8]) -> RefOut {
         if f.pec_ok && !len_bad {
             return RefOut::Accept { ty: TY_CONTROL, a: 12, b: n - 1 };
         }
-        RefOut::Reject(Truth { hdr_bad: false, ty: Some(TY_CONTROL), pec_bad: !f.pec_ok, len_bad, cc: None })
+        RefOut::Reject(Truth { hdr_bad: false, ty: Some(TY_CONTROL), pec_bad: !f.pec_ok, len_bad, cc: None, cc_undefined: false })
     }
 }
 
